@@ -102,6 +102,125 @@ def parse_bounds_sites(db, rep, maxlen=3):
 
 
 
+class ArrayBoundHooks(QHooks):
+    """stores into a fixed array (directly, through a pointer, or by a read primitive handed an address into it)"""
+    def __init__(self, pat, size):
+        import re
+        self.re = re.compile(pat)
+        self.size = size
+        self.maxidx = -1
+        self.bad = None
+        self.rets = []
+
+    def tracked_global(self, path):
+        return True
+
+    def precise_arith(self, path):
+        return True
+
+    def touch(self, E, path, what):
+        m = self.re.search(path)
+        if m:
+            k = int(m.group(1))
+            self.maxidx = max(self.maxidx, k)
+            if not (0 <= k < self.size) and self.bad is None:
+                self.bad = ('%s at index %d of an array of %d' % (what, k, self.size), E.trace.list())
+                E.kill()
+
+    def on_assign(self, E, x, path, val):
+        self.touch(E, path, 'store')
+
+    def target(self, E, v, what):
+        if v is not TOP and len(v) == 1:
+            (a,) = v
+            if isinstance(a, tuple) and a[0] == '&' and isinstance(a[1], str):
+                self.touch(E, a[1] if a[1].endswith(']') else a[1] + '[0]', what)
+
+
+def fixed_buffer_sites(db, rep):
+    out = {}
+    # (a) qmail.c: the queue program's error text goes into errstr[256], whatever its length
+    prog = db.program('qmail-smtpd')
+    qc = prog.fn('qmail_close', 'qmail.c')
+    arrs = [x for x in qc.all_x() if x.k == 'decl' and 'char[' in (x.n.get('t') or '')]
+
+    class EH(ArrayBoundHooks):
+        def prim_substdio_get(self, E, x, args):
+            self.target(E, args[1], 'substdio_get() stores the byte it read')
+            n = E.get('$n')
+            n = next(iter(n)) if n is not TOP and n else 0
+            if n > 400:
+                if self.bad is None:
+                    self.bad = ('the loop that reads the error text does not stop after 400 bytes', E.trace.list())
+                return 'noreturn'
+            return [Outcome(ret=fs(1), sets={'$n': fs(n + 1)})]
+
+        def _n(self, E, x, args):
+            return [Outcome(ret=TOP)]
+
+        prim_substdio_fdbuf = prim_close = prim_qmail_put = prim_substdio_flush = _n
+
+        def prim_wait_pid(self, E, x, args):
+            return 'noreturn'
+    H = EH(r'errstr(?:#\d+)?\[(-?\d+)\]', 256)
+    e = Engine(db, prog, H, max_states=2000000)
+    fid = e.frame_id(qc)
+    e.run(qc, {'%s::%s' % (fid, qc.params[0]): fs(('&', 'QQ')), 'QQ.flagerr': fs(0)})
+    rep.count_states(e.states, e.transitions)
+    if H.maxidx < 100 and H.bad is None:
+        raise AnalysisBroken('qmail_close: the error text buffer was not exercised (highest index %d)' % H.maxidx)
+    out['qmail.c:errstr-index-stays-below-256'] = (H.bad is None, 'qmail.c:qmail_close', H.bad[0] if H.bad else 'highest index written: %d' % H.maxidx, H.bad[1] if H.bad else [])
+    # (b) qmail-qmqpd getbuf(): netstring into buf[1000]
+    pq = db.program('qmail-qmqpd')
+    gb = pq.fn('getbuf', 'qmail-qmqpd.c')
+    bu = db.unit('qmail-qmqpd.c').globals.get('buf')
+    import re
+    m = re.search(r'\[(\d+)\]', bu.get('t', '')) if bu else None
+    if not m:
+        raise AnalysisBroken('qmail-qmqpd.c: buf[] not found')
+    bufsz = int(m.group(1))
+    bad = None
+    for ln in (0, 5, bufsz - 1, bufsz, bufsz + 1, 5 * bufsz):
+        class GH(ArrayBoundHooks):
+            def prim_getlen(self, E, x, args):
+                return [Outcome(ret=fs(ln))]
+
+            def prim_getbyte(self, E, x, args):
+                self.target(E, args[0], 'getbyte() stores a byte of a %d-byte netstring' % ln)
+                v = args[0]
+                if v is not TOP and len(v) == 1:
+                    (a,) = v
+                    if isinstance(a, tuple) and a[0] == '&':
+                        p_ = a[1] if a[1].endswith(']') else a[1] + '[0]'
+                        return [Outcome(ret=TOP, sets={p_: fs(ord('a'))})]
+                return [Outcome(ret=TOP)]
+
+            def prim_getcomma(self, E, x, args):
+                return [Outcome(ret=TOP)]
+
+            def prim_byte_chr(self, E, x, args):
+                return [Outcome(ret=args[1] if len(args) > 1 else TOP)]
+
+            def on_return(self, E, fn, val):
+                if fn.name == 'getbuf':
+                    self.rets.append(val)
+        H = GH(r'^G:buf\[(-?\d+)\]', bufsz)
+        e = Engine(db, pq, H, max_states=4000000)
+        e.run(gb, {})
+        rep.count_states(e.states, e.transitions)
+        if H.bad and bad is None:
+            bad = ('netstring of %d bytes: %s' % (ln, H.bad[0]), H.bad[1])
+        if not H.bad:
+            vals = {(1 if next(iter(v)) else 0) if v is not TOP and len(v) == 1 else '?' for v in H.rets}
+            if ln >= bufsz and vals != {0} and bad is None:
+                bad = ('a netstring of %d bytes is accepted by getbuf() (results %s); the buffer holds %d bytes and a terminating NUL must fit' % (ln, sorted(vals, key=str), bufsz), [])
+            if ln < bufsz and not H.rets:
+                raise AnalysisBroken('getbuf: no return explored for length %d' % ln)
+    out['qmqpd:netstring-stays-inside-buf'] = (bad is None, 'qmail-qmqpd.c:getbuf', bad[0] if bad else 'lengths 0, 5, %d, %d, %d, %d' % (bufsz - 1, bufsz, bufsz + 1, 5 * bufsz), bad[1] if bad else [])
+    return out
+
+
+
 def run(ctx):
     db, rep = ctx.db, ctx.report
     # ---------------------------------------------------------------- 1. reserve contracts (linear symbolic)
@@ -269,22 +388,8 @@ def run(ctx):
         ok = all(f.dominates(sd, ld) for sd in sdefs for ld in ldefs) and all('relayclient' in ld.args[1].src() for ld in ldefs)
         r4.check(ok, 'qmtpd:relayclientlen-measures-the-final-relayclient', ldefs[0].where,
                  'relayclientlen is computed before relayclient receives its value: the guard len + relayclientlen >= 1000 then ignores the suffix that str_copy appends to buf[1000]')
-    gb = db.program('qmail-qmqpd').fn('getbuf', 'qmail-qmqpd.c')
-    st = [x for x in gb.all_x() if x.k == 'asg' and x.args[0].strip().k == 'idx' and x.args[0].strip().args[0].path() == 'G:buf' and x.args[0].strip().args[1].const is None]
-    okg = bool(st)
-    for x in st:
-        okg = okg and any(c.strip().k == 'bin' and c.strip().op == '>=' and c.strip().args[1].const == 1000 and t is False for c, t in gb.guards(x) or [])
-    r4.check(okg, 'qmqpd:buf[len]-under-len<1000', 'qmail-qmqpd.c:getbuf', '')
-    qe = db.fn('qmail.c', 'qmail_errstr')
-    sz = 256
-    lp = False
-    for b in qe.blocks.values():
-        c = b.cond
-        if c is not None:
-            hs = holds_set(c, True, lambda v: (v.var or '').startswith('L:len'))
-            if hs and hs(254) and not hs(255):
-                lp = True
-    r4.check(lp, 'qmail.c:errstr-index-stays-below-256', 'qmail.c:qmail_errstr', 'the read loop must stop at len < 255 so that s[len] = 0 stays inside errstr[256]')
+    for inst, v in sorted(fixed_buffer_sites(db, rep).items()):
+        r4.check(v[0], inst, v[1], v[2], v[3])
     r4.expect_min(5)
 
     # ---------------------------------------------------------------- 5. limit guards
